@@ -316,7 +316,8 @@ def normalize_url(
     # Normalizing the path
     if path:
         trailing_slash = False
-        if path.endswith("/") and len(path) > 1:
+        # NOTE: "/a/b/.." resolves to "/a/", which has a trailing slash too
+        if path.endswith(("/", "/.", "/..")) and len(path) > 1:
             trailing_slash = True
         path = normpath(path)
         if trailing_slash and not strip_trailing_slash:
